@@ -115,6 +115,26 @@ static int hwloc_append_diff_obj_attr_uint64(hwloc_obj_t obj,
 	return 0;
 }
 
+/* An info diff entry only carries the name and the old and new values,
+ * and it is applied to the first info with that name and old value.
+ * It cannot designate an info that follows another one with the same name
+ * and the same value, when applying the diff or when applying it in reverse.
+ * Infos before idx already have identical names on both sides.
+ */
+static int
+hwloc_diff_info_is_ambiguous(struct hwloc_infos_s *infos1, struct hwloc_infos_s *infos2, unsigned idx)
+{
+	unsigned j;
+	for(j=0; j<idx; j++) {
+		if (strcmp(infos1->array[j].name, infos1->array[idx].name))
+			continue;
+		if (!strcmp(infos2->array[j].value, infos1->array[idx].value)
+		    || !strcmp(infos1->array[j].value, infos2->array[idx].value))
+			return 1;
+	}
+	return 0;
+}
+
 static int
 hwloc_diff_trees(hwloc_topology_t topo1, hwloc_obj_t obj1,
 		 hwloc_topology_t topo2, hwloc_obj_t obj2,
@@ -222,6 +242,8 @@ hwloc_diff_trees(hwloc_topology_t topo1, hwloc_obj_t obj1,
 		if (strcmp(info1->name, info2->name))
 			goto out_too_complex;
 		if (strcmp(info1->value, info2->value)) {
+			if (hwloc_diff_info_is_ambiguous(&obj1->infos, &obj2->infos, i))
+				goto out_too_complex;
                         err = hwloc_append_diff_obj_attr_string(topo1, obj1,
 								HWLOC_TOPOLOGY_DIFF_OBJ_ATTR_INFO,
 								info1->name,
@@ -350,6 +372,8 @@ int hwloc_topology_diff_build(hwloc_topology_t topo1,
             if (strcmp(info1->name, info2->name))
               goto roottoocomplex;
             if (strcmp(info1->value, info2->value)) {
+              if (hwloc_diff_info_is_ambiguous(&topo1->infos, &topo2->infos, i))
+                goto roottoocomplex;
               err = hwloc_append_diff_obj_attr_string(topo1, NULL,
                                                       HWLOC_TOPOLOGY_DIFF_OBJ_ATTR_INFO,
                                                       info1->name,
